@@ -23,14 +23,14 @@ let () = register "kmodel" (fun () ->
     (String.concat " " (List.map (function RetBool true -> "T" | RetBool false -> "F" | RetData -> "D" | Raise -> "R") outs)))
 
 let () = register "mgs" (fun () ->
-  let sk = next_bool () in let lb = next_nat () in let n = next_nat () in
-  let sts = next_list next_raw in print_outcome (run_mgs sk lb n sts))
+  let sk = next_bool () in let lb = next_nat () in let n = next_nat () in let cuts = next_nat () in
+  let sts = next_list next_raw in print_outcome (run_mgs sk lb n cuts sts))
 
 let () = register "mfd" (fun () ->
   let sk = next_bool () in let ex = next_bool () in let xc = next_bool () in let lb0 = next_nat () in let ne = next_nat () in
-  let um = next_bool () in let nw = next_nat () in let gu = next_bool () in let gw = next_nat () in
+  let um = next_bool () in let nw = next_nat () in let cuts = next_nat () in let gu = next_bool () in let gw = next_nat () in
   let gr = next_list next_bool in let sts = next_list next_raw in
-  print_outcome (run_mfd sk ex xc lb0 ne um nw gu gw gr sts))
+  print_outcome (run_mfd sk ex xc lb0 ne um nw cuts gu gw gr sts))
 
 let () = register "mfdc" (fun () ->
   let sk = next_bool () in let xc = next_bool () in let lb0 = next_nat () in let ne = next_nat () in
